@@ -22,6 +22,9 @@ import (
 	"github.com/libp2p/go-libp2p/core/network"
 	"github.com/libp2p/go-libp2p/core/peer"
 	"github.com/libp2p/go-libp2p/core/protocol"
+	"github.com/libp2p/go-libp2p/core/record"
+	"github.com/libp2p/go-libp2p/core/crypto"
+	ma "github.com/multiformats/go-multiaddr"
 )
 
 // C12 part 1: arbitrary BYTES on an inbound pubsub stream of a real node (small max message size), compared
@@ -266,7 +269,7 @@ func TestVF_Hostile(t *testing.T) {
 	synctest.Test(t, func(t *testing.T) {
 		ctx, cancel := context.WithCancel(context.Background())
 		defer cancel()
-		hosts := vfHosts(t, 4)
+		hosts := vfHosts(t, 5)
 		count := 0
 		psA := vfHostileNode(t, ctx, hosts[0], 1<<20, &count)
 		var subs []*Subscription
@@ -327,8 +330,57 @@ func TestVF_Hostile(t *testing.T) {
 			}
 			return true
 		}
+		// a peer in good standing (it sends nothing else) whose PRUNEs carry many VALIDLY signed peer-exchange records for
+		// addresses nobody listens on: more candidates than the connectors and their queue can take
+		pxm := &vfMock{t: t, h: hosts[4], a: hosts[0], proto: GossipSubID_v11}
+		pxm.install()
+		if err := pxm.h.Connect(ctx, peer.AddrInfo{ID: hosts[0].ID(), Addrs: hosts[0].Addrs()}); err != nil {
+			t.Fatal(err)
+		}
+		time.Sleep(time.Second)
+		open(pxm)
+		nflood := 0
+		pxFlood := func(i int) bool {
+			if pxm.out == nil {
+				open(pxm)
+			}
+			var prunes []*pb.ControlPrune
+			for k := 0; k < 40; k++ {
+				tn := []string{"t0", "t1"}[k%2]
+				pr := &pb.ControlPrune{TopicID: &tn}
+				for j := 0; j < 16; j++ {
+					priv, _, _ := crypto.GenerateEd25519Key(rng)
+					id, _ := peer.IDFromPrivateKey(priv)
+					a, _ := ma.NewMultiaddr(fmt.Sprintf("/ip4/1.%d.%d.%d/udp/8000/quic-v1", 200+nflood%50, k, j))
+					env, err := record.Seal(&peer.PeerRecord{PeerID: id, Addrs: []ma.Multiaddr{a}, Seq: 1}, priv)
+					if err != nil {
+						t.Fatal(err)
+					}
+					raw, _ := env.Marshal()
+					pr.Peers = append(pr.Peers, &pb.PeerInfo{PeerID: []byte(id), SignedPeerRecord: raw})
+				}
+				prunes = append(prunes, pr)
+			}
+			nflood++
+			rpc := &pb.RPC{Control: &pb.ControlMessage{Prune: prunes}}
+			short := &pb.RPC{Control: &pb.ControlMessage{Prune: prunes[:1]}}
+			js, _ := json.Marshal(short)
+			os.WriteFile(filepath.Join(outDir, "c12_last_input.json"), js, 0o644)
+			if !pxm.send(rpc) {
+				pxm.out = nil
+				return true
+			}
+			cs.kind("px-flood")
+			synctest.Wait()
+			return probe(i, "one RPC with 40 PRUNEs of 16 validly signed peer-exchange records each for unreachable addresses (only the first PRUNE is kept in this replay)", short)
+		}
 		delivered := 0
 		for i := 0; i < nrpc; i++ {
+			if i%500 == 250 {
+				if !pxFlood(i) {
+					break
+				}
+			}
 			m := mocks[rng.Intn(2)]
 			if m.out == nil {
 				open(m)
@@ -394,6 +446,6 @@ func TestVF_Hostile(t *testing.T) {
 		js, _ := json.MarshalIndent(viol, "", " ")
 		os.WriteFile(filepath.Join(outDir, "violation_hostile.json"), js, 0o644)
 	}
-	cs.flush("structurally valid RPCs with adversarial field values (empty / huge / unknown topics, wrong-length sequence numbers, bogus author ids, absent optional fields, signatures under a no-sign policy, IHAVE lists around the per-peer budget, PRUNE with huge backoff and bogus / unsigned peer records, empty control entries, extension and partial-message fields from the C11 generator) from peers of different protocol versions over REAL streams to a node with scoring, peer exchange, the sequence-number validator and extensions; every 25 RPCs the event loop is probed and an honest node's publication must be delivered; the last input is kept on disk so that a crash of the process can be attributed; " +
+	cs.flush("structurally valid RPCs with adversarial field values (empty / huge / unknown topics, wrong-length sequence numbers, bogus author ids, absent optional fields, signatures under a no-sign policy, IHAVE lists around the per-peer budget, PRUNE with huge backoff and bogus / unsigned peer records, empty control entries, floods of validly signed peer-exchange records for unreachable addresses from a peer in good standing, extension and partial-message fields from the C11 generator) from peers of different protocol versions over REAL streams to a node with scoring, peer exchange, the sequence-number validator and extensions; every 25 RPCs the event loop is probed and an honest node's publication must be delivered; the last input is kept on disk so that a crash of the process can be attributed; " +
 		"non-trivial = always; distinct = index")
 }
